@@ -5,8 +5,8 @@ from common import from_replay, to_replay  # noqa: F401
 
 PID = "C03"
 COQ_MODULE = "Prop_C03"
-THEOREMS = ['C03_guard_drop_releases_all', 'C03_unlock_step', 'C03_scoped_restores', 'C03_no_self_wait']
-CASE_MODULES = ["Monitors", "Conc", "BMonitors"]
+THEOREMS = ['C03_every_history', 'C03_guard_drop_releases_all', 'C03_unlock_step', 'C03_scoped_restores', 'C03_no_self_wait']
+CASE_MODULES = ["Pf_Hist", "Monitors", "Conc", "BMonitors"]
 CHECK_WITHOUT_PROOF = True
 TRUSTED = common.TRUSTED_COMMON
 ASSUMPTIONS = common.ASSUME_COMMON
